@@ -58,3 +58,19 @@ proof fn lemma_remove_multiset(s: Seq<u64>, i: int)
     broadcast use vstd::seq_lib::group_to_multiset_ensures;
     assert(s.remove(i).to_multiset() =~= s.to_multiset().remove(s[i]));
 }
+
+// DB-level invariants a beginning WRITER relies on (established by DBInner::open, kept by every commit: units open / commit,
+// lemmas L2/L3; stated here as the precondition under which Tx::new establishes what Tx::commit needs)
+spec fn db_ok_for_writer(db: &DB) -> bool {
+    let ps = db.inner.pagesize as int;
+    let m0 = select_header(db.inner.bytes(), ps)->Some_0;
+    let f = db.inner.freelist.cur();
+    &&& db.inner.pagesize >= 1024
+    &&& m0.num_pages > 1 && m0.freelist_page > 1
+    &&& m0.freelist_page + page_view(db.inner.bytes(), m0.freelist_page as int, ps).overflow + 1 <= u64::MAX
+    // every id the shared free list knows (free or pending) is a tree page below the header's high-water mark
+    &&& forall|p: u64| f.free_pages@.contains(p) ==> 1 < p < m0.num_pages
+    &&& forall|b: u64, x: u64| #[trigger] released(f.pending_pages@, b, x) ==> 1 < x < m0.num_pages
+    // the map covers the file (open maps the whole file, resize remaps it after every extension)
+    &&& db.inner.bytes().len() >= db.inner.file.cur().len()
+}
